@@ -558,7 +558,8 @@ pub fn run(mode: &str, seed: u64, n: usize, out: &mut dyn Write) {
         attempts += 1;
         let mut srng = rng.fork();
         let s = gen_setup(&mut srng);
-        let reg = *srng.pick(&[0.0001f64, 0.001, 0.01, 0.01, 0.1, 0.5]);
+        // strong regularisation prunes whole feature families (models without any bigram weight, all-zero models)
+        let reg = *srng.pick(&[0.0001f64, 0.001, 0.01, 0.01, 0.1, 0.5, 0.5, 5.0, 50.0]);
         let iters = *srng.pick(&[1u64, 3, 10, 30, 100]);
         let id = format!("{seed}.{made}");
         let mut m0 = match train(&s, reg, iters) {
@@ -718,6 +719,35 @@ pub fn replay(out: &mut dyn Write) {
         let user = if t[2] == "none" { None } else { crate::wire::unhex(t[2]) };
         let (obs, _) = observe_gen(&image, user.as_deref());
         writeln!(out, "train {} GEN {} {} IMPL {}", t[0], t[1], t[2], obs).unwrap();
+    }
+}
+
+/// `vharness train f27`: a minimal instance of finding F27 as a protocol line (no seed entry yields a right-context
+/// feature, so training leaves the bigram weight table empty; a user entry then brings one and `merge` panics).
+pub fn f27(out: &mut dyn Write) {
+    let s = Setup {
+        lex: "a,0,0,0,N\nb,0,0,0,V\n".to_string(),
+        chardef: "DEFAULT 0 1 0\n".to_string(),
+        unk: "DEFAULT,0,0,0,U\n".to_string(),
+        feature_def: "UNIGRAM u:%F[0]\nBIGRAM l:%L?[1]/r:%R?[1]\n".to_string(),
+        rewrite_def: "[unigram rewrite]\n[left rewrite]\n[right rewrite]\n".to_string(),
+        corpus: "a\tN\nb\tV\nEOS\nb\tV\nEOS\n".to_string(),
+        user: "c,0,0,0,N,x\n".to_string(),
+        k: 1,
+        slash: false,
+        rows: vec![],
+    };
+    let mut m = match train(&s, 0.01, 10) {
+        Some(m) => m,
+        None => return,
+    };
+    let mut image = vec![];
+    if m.write_model(&mut image).is_err() {
+        return;
+    }
+    for (id, user) in [("f27.a", None), ("f27.b", Some(s.user.as_bytes()))] {
+        let (obs, g) = observe_gen(&image, user);
+        writeln!(out, "train {id} GEN {} {} IMPL {obs} ## {}", hex(&image), user.map_or("none".to_string(), hex), flags(&s, true, &g)).unwrap();
     }
 }
 
